@@ -32,7 +32,9 @@ def herd_for_round(run, rnd):
 def round_trace(run, lp):
     h = herd_for_round(run, lp["round"])
     if h is None:
-        return None
+        # no herd simulation was built during this run for this round (e.g. one left over from an earlier run was reused)
+        return dict(hdr=dict(cc=run["job"]["cc"], preset=run["job"]["preset"], round=lp["round"], kind=lp["kind"], herd_tag=None, species=[]),
+                    ev=[dict(ev="NoHerd")])
     inp = run["inputs"]
     n = lp["consts"]["NMONTHS"]
     s = lp["series"]
